@@ -22,8 +22,9 @@ SPEC = {
     "gens": ["gen_hostmap"],
     "props": ["props/C28.v"],
     "corr": ["corr/HostMap_corr.v"],
-    "comps": [{"comp": "hostmap", "n_quick": 300, "n_thorough": 6000}, {"comp": "sysmon_C28", "e2e": True, "n_quick": 12, "n_thorough": 150}],
-    "trusted": ["model/HostMap.v is a hand-written mirror of hostmap.go (unlockedAddHostInfo, unlockedInnerAddHostInfo, unlockedDeleteHostInfo, "
+    "comps": [{"comp": "hostmap", "n_quick": 300, "n_thorough": 6000}, {"comp": "hostmap_rx28", "n_quick": 100, "n_thorough": 3000}, {"comp": "sysmon_C28", "e2e": True, "n_quick": 12, "n_thorough": 150}],
+    "trusted": ["the component hostmap_rx28 runs the same histories on a node with a real PKI, the pending operations going through the timer routine's handleOutbound (handshake.Machine -> allocateIndex; timeout), HandleIncoming -> beginHandshake, and continueHandshake called with the handshake pointer the rx routine resolved earlier (authenticated replies for current, timed-out, abandoned and re-issued handshakes), so continueHandshake's own still-tracked test is under test instead of a guard in the harness",
+                "model/HostMap.v is a hand-written mirror of hostmap.go (unlockedAddHostInfo, unlockedInnerAddHostInfo, unlockedDeleteHostInfo, "
                 "unlockedSetHostsForAddr, unlockedMakePrimary), relay_manager.go AddRelay and handshake_manager.go (StartHandshake, allocateIndex, "
                 "generateIndex, CheckAndComplete, Complete, unlockedDeleteHostInfo), tied by the correspondence",
                 "gen/Consts_HostMap.v (MaxHostInfosPerVpnIp) is printed from the compiled-in constant",
